@@ -226,10 +226,10 @@ Proof. intros. split; reflexivity. Qed.
 (* members no draft gives a meaning to (e.g. "$metadata") are ignored by the
    compiler, wherever they occur in a schema object and whatever their value *)
 
-Lemma compile_member_unknown : forall rec d root k v,
-  unknown_member k = true -> compile_member rec d root k v = Ok [].
+Lemma compile_member_unknown : forall rec d rid root k v,
+  unknown_member k = true -> compile_member rec d rid root k v = Ok [].
 Proof.
-  intros rec d root k v H. unfold unknown_member in H. apply andb_true_iff in H. destruct H as [Hm Hu].
+  intros rec d rid root k v H. unfold unknown_member in H. apply andb_true_iff in H. destruct H as [Hm Hu].
   apply negb_true_iff in Hm. apply negb_true_iff in Hu.
   unfold str_in, modelled_keywords in Hm. simpl in Hm.
   repeat match goal with
@@ -242,27 +242,27 @@ Proof.
   cbv beta iota zeta delta [orb]. rewrite Hu. reflexivity.
 Qed.
 
-Definition member_fn (d : draft) (root : bool) : string * json -> res (list ckw) :=
-  fun kv => compile_member (fun x => res_map fst (compile_node d false x)) d root (fst kv) (snd kv).
+Definition member_fn (d : draft) (rid : option string) (root : bool) : string * json -> res (list ckw) :=
+  fun kv => compile_member (fun x => res_map fst (compile_node d rid false x)) d rid root (fst kv) (snd kv).
 
-Lemma compile_node_obj : forall d root o,
-  compile_node d root (JObj o) =
-  match res_map (@List.concat ckw) (seq_res (map (member_fn d root) o)) with
+Lemma compile_node_obj : forall d rid root o,
+  compile_node d rid root (JObj o) =
+  match res_map (@List.concat ckw) (seq_res (map (member_fn d rid root) o)) with
   | Ok l => Ok (assemble d l, l)
   | Err e => Err e
   | Panic w => Panic w
   | Diverge => Diverge
   end.
 Proof.
-  intros d root o.
-  change (compile_node d root (JObj o)) with
-    (match seq_res (map (member_fn d root) o) with
+  intros d rid root o.
+  change (compile_node d rid root (JObj o)) with
+    (match seq_res (map (member_fn d rid root) o) with
      | Ok cks => let l := List.concat cks in Ok (assemble d l, l)
      | Err e => Err e
      | Panic w => Panic w
      | Diverge => Diverge
      end).
-  destruct (seq_res (map (member_fn d root) o)); reflexivity.
+  destruct (seq_res (map (member_fn d rid root) o)); reflexivity.
 Qed.
 
 Lemma seq_res_insert_nil : forall (l1 l2 : list (res (list ckw))),
@@ -293,15 +293,22 @@ Proof.
   { unfold unknown_member in Hk. apply andb_true_iff in Hk. destruct Hk as [Hm _].
     apply negb_true_iff in Hm. unfold str_in, modelled_keywords in Hm. simpl in Hm.
     apply orb_false_elim in Hm. destruct Hm as [Hm _]. exact Hm. }
-  unfold compile_root, detect_draft.
+  assert (Hi : String.eqb k "$id" = false).
+  { unfold unknown_member in Hk. apply andb_true_iff in Hk. destruct Hk as [Hm _].
+    apply negb_true_iff in Hm. unfold str_in, modelled_keywords in Hm. simpl in Hm.
+    apply orb_false_elim in Hm. destruct Hm as [_ Hm].
+    apply orb_false_elim in Hm. destruct Hm as [Hm _]. exact Hm. }
+  assert (Hrid : root_id (JObj (o1 ++ (k, v) :: o2)) = root_id (JObj (o1 ++ o2))).
+  { unfold root_id. rewrite (jassoc_insert_other "$id" k v o1 o2 Hi). reflexivity. }
+  unfold compile_root, detect_draft. rewrite Hrid.
   rewrite (jassoc_insert_other "$schema" k v o1 o2 Hs).
   destruct (jassoc "$schema" (o1 ++ o2)) as [[| | | u | |] |]; try reflexivity.
   - destruct (draft_of_url u) as [d |]; [| reflexivity].
     rewrite !compile_node_obj. rewrite map_app. simpl map.
-    unfold member_fn at 2. simpl fst. simpl snd. rewrite (compile_member_unknown _ d true k v Hk).
+    unfold member_fn at 2. simpl fst. simpl snd. rewrite (compile_member_unknown _ d _ true k v Hk).
     rewrite seq_res_insert_nil. rewrite <- map_app. reflexivity.
   - rewrite !compile_node_obj. rewrite map_app. simpl map.
-    unfold member_fn at 2. simpl fst. simpl snd. rewrite (compile_member_unknown _ D2020 true k v Hk).
+    unfold member_fn at 2. simpl fst. simpl snd. rewrite (compile_member_unknown _ D2020 _ true k v Hk).
     rewrite seq_res_insert_nil. rewrite <- map_app. reflexivity.
 Qed.
 
